@@ -148,3 +148,10 @@ reg("C08", level="fault_enumeration", overlay="world",
     variants=[{"name": "main"}, {"name": "mockkeys", "env": {"USE_MOCK_KEYS": "true"}, "args": ["-vtarget", "listeners"], "workers": 6}],
     assumptions=["arbitrary multi-site garbage beyond the grammars is not covered", "the QUIC listener (real quic-go transport) is outside the explored system",
                  "resource exhaustion (unbounded cookie records in one NTS-KE message) is not covered", "a 60 s real-time watchdog detects spinning loops"])
+
+reg("C15", level="model_checking", overlay="world", gomaxprocs=1,
+    technique="deviation-bounded exploration of path sets / client states / random outcomes / completion orders around the real multipath measurement; exhaustive enumeration of the random primitives through a scripted crypto/rand.Reader",
+    level_text="Part 1 runs MeasureClockOffsetSCION with real clients and the real listener in a bubble and judges path assignment (observed per next hop on the wire), stickiness/reset and the combined result on every execution inside the bound. Part 2 feeds all 2^32 words to RandIntn and all outcome sequences to Sample and checks uniformity by counting.",
+    budget={"quick": 200, "thorough": 1500}, workers={"quick": 16, "thorough": 16},
+    variants=[{"name": "main"}, {"name": "uniform", "args": ["-vmode", "uniform"]}],
+    assumptions=["a client is identified on the wire by a distinct DSCP value, a path by its underlay next hop", "RandIntn is enumerated for n in {2,3} (quick) / 2..16 (thorough), Sample for n <= 6 (7)"])
